@@ -111,6 +111,57 @@ Definition suppress_leave (rest : vmap) (st0 s1 : state) : scope * state :=
   let newsc := mkScope (merge_rest (vars dummy) rest) false (ll dummy) in
   (inner, combine [dummy; newsc; inner] st1).
 
+(* ---- the pieces of visit_While / visit_For / _handle_loop_else between the visits of the
+   sub-blocks (st = state before the statement) *)
+
+(* with subscope() as body_scope: with loop_scope(): -- the main loop scope is current,
+   current_loop_scopes is a fresh list *)
+Definition loop_body_entry (st : state) : state :=
+  mkState (strip_ls (cur (enter st))) [] (u2d st).
+(* loop_scopes = main scope followed by the scopes diverted by combine_subscopes *)
+Definition loop_scopes (m1 : state) : list scope := cur m1 :: loops m1.
+(* leaving loop_scope: combine the loop scopes (LEAVES_LOOP removed) into body_scope *)
+Definition loop_after_body (st m1 : state) : state :=
+  combine (map strip_ll (loop_scopes m1)) (mkState (cur (enter st)) (loops st) (u2d m1)).
+(* _handle_loop_else, always_entered branch *)
+Definition loop_st2 (forever : bool) (st o2 : state) : state :=
+  if forever then combine [cur o2] (restore st o2) else restore st o2.
+Definition loop_bs (forever : bool) (st2 o2 : state) : scope :=
+  if forever then strip_ls (cur st2) else cur o2.
+(* the else subscope (repaired: starts from not-entered U body_scope) *)
+Definition loop_else_entry (forever : bool) (e : block) (st2 o2 : state) : state :=
+  if negb (is_nil e) && negb forever
+  then combine [cur (enter st2); cur o2] (enter st2)
+  else enter st2.
+Definition loop_st4 (forever : bool) (st2 o2 e2 : state) : state :=
+  combine [loop_bs forever st2 o2; cur e2] (restore st2 e2).
+Definition loop_finish (forever : bool) (L : list scope) (st5 : state) : state :=
+  if forever && forallb (fun sc => negb (ll sc)) L then set_ls st5 else st5.
+
+(* ---- the pieces of visit_try_except *)
+Definition te_body_entry (st : state) : state := enter (enter (enter st)).
+Definition te_after_body (b : block) (st s1 : state) : scope * state :=
+  suppress_leave (grouped (assigned_b b)) (enter (enter st)) s1.
+Definition te_else_entry (st : state) (sf : scope * state) : state :=
+  combine [fst sf] (enter (restore (enter st) (snd sf))).
+Definition te_handlers_entry (st : state) (sf : scope * state) (e2 : state) : state :=
+  restore (restore (enter st) (snd sf)) e2.
+Definition te_finish (st e2 : state) (hr : list scope * state) : state :=
+  combine (cur e2 :: fst hr) (restore st (snd hr)).
+
+(* ---- the pieces of visit_Try with a finally clause *)
+Definition fin_te_entry (st : state) : state := enter (enter st).
+Definition fin_after_te (a : list (var * node)) (st t : state) : scope * state :=
+  suppress_leave (grouped a) (enter st) t.
+Definition fin_first_entry (st : state) (sf : scope * state) : state :=
+  combine [cur (snd sf)] (enter (restore st (snd sf))).
+Definition fin_second_entry (st : state) (sf : scope * state) (g2 : state) : state :=
+  combine [fst sf] (restore (restore st (snd sf)) g2).
+
+Definition if_mid (st s1 : state) : state := enter (restore st s1).
+Definition if_finish (st s1 s2 : state) : state :=
+  combine [cur s1; cur s2] (restore (restore st s1) s2).
+
 Fixpoint visit_s (s : stmt) (st : state) {struct s} : state :=
   match s with
   | SAssign v d => set_var v d st
@@ -120,56 +171,32 @@ Fixpoint visit_s (s : stmt) (st : state) {struct s} : state :=
   | SBreak | SContinue => set_ll st
   | SIf b e =>
       let s1 := visit_b b (enter st) in
-      let st1 := restore st s1 in
-      let s2 := visit_b e (enter st1) in
-      let st2 := restore st1 s2 in
-      combine [cur s1; cur s2] st2
+      let s2 := visit_b e (if_mid st s1) in
+      if_finish st s1 s2
   | SLoop forever b e =>
-      (* with subscope() as body_scope: with loop_scope(): body *)
-      let o := enter st in
-      let m1 := visit_b b (mkState (strip_ls (cur o)) [] (u2d o)) in
-      let L := cur m1 :: loops m1 in
-      let o2 := combine (map strip_ll L) (mkState (cur o) (loops st) (u2d m1)) in
-      let body_scope := cur o2 in
-      let st1 := restore st o2 in
-      (* _handle_loop_else *)
-      let st2 := if forever then combine [body_scope] st1 else st1 in
-      let bs := if forever then strip_ls (cur st2) else body_scope in
-      let e0 := enter st2 in
-      let e1 := if negb (is_nil e) && negb forever then combine [cur e0; body_scope] e0 else e0 in
-      let e2 := visit_b e e1 in
-      let st3 := restore st2 e2 in
-      let st4 := combine [bs; cur e2] st3 in
+      let m1 := visit_b b (loop_body_entry st) in
+      let o2 := loop_after_body st m1 in
+      let st2 := loop_st2 forever st o2 in
+      let e2 := visit_b e (loop_else_entry forever e st2 o2) in
+      let st4 := loop_st4 forever st2 o2 e2 in
       (* second collecting visit of the body *)
       let r1 := visit_b b (enter st4) in
-      let st5 := restore st4 r1 in
-      if forever && forallb (fun sc => negb (ll sc)) L then set_ls st5 else st5
+      loop_finish forever (loop_scopes m1) (restore st4 r1)
   | SWith sup b =>
       if sup then snd (suppress_leave (grouped (assigned_b b)) st (visit_b b (enter st)))
       else visit_b b st
   | STry b hs e f =>
       let try_except := fun (st : state) =>
-        let o := enter st in
-        let dummy := strip_ls (cur o) in
-        let f0 := enter o in
-        let sf := suppress_leave (grouped (assigned_b b)) f0 (visit_b b (enter f0)) in
-        let success := fst sf in
-        let failure := cur (snd sf) in
-        let o1 := restore o (snd sf) in
-        let e2 := visit_b e (combine [success] (enter o1)) in
-        let o2 := restore o1 e2 in
-        let hr := visit_hs hs dummy failure o2 in
-        combine (cur e2 :: fst hr) (restore st (snd hr)) in
+        let s1 := visit_b b (te_body_entry st) in
+        let sf := te_after_body b st s1 in
+        let e2 := visit_b e (te_else_entry st sf) in
+        let hr := visit_hs hs (strip_ls (cur (enter st))) (cur (snd sf)) (te_handlers_entry st sf e2) in
+        te_finish st e2 hr in
       if is_nil f then try_except st
       else
-        let f0 := enter st in
-        let sf := suppress_leave (grouped (assigned_b b ++ assigned_hs hs ++ assigned_b e)) f0 (try_except (enter f0)) in
-        let success := fst sf in
-        let failure := cur (snd sf) in
-        let st1 := restore st (snd sf) in
-        let g2 := visit_b f (combine [failure] (enter st1)) in
-        let st2 := restore st1 g2 in
-        visit_b f (combine [success] st2)
+        let sf := fin_after_te (assigned_b b ++ assigned_hs hs ++ assigned_b e) st (try_except (fin_te_entry st)) in
+        let g2 := visit_b f (fin_first_entry st sf) in
+        visit_b f (fin_second_entry st sf g2)
   end
 with visit_b (b : block) (st : state) {struct b} : state :=
   match b with
